@@ -24,6 +24,15 @@ class Dispatcher:
         fn = self._function_registry[input_data_type]
         return fn(*args, **kwargs)
 
+    def __copy__(self):
+        return self
+
+    def __deepcopy__(self, memo):
+        # a dispatcher is a process-wide registry of the implementations of
+        # one built-in check: a copy would miss the implementations that
+        # back ends register later (and compare unequal to the original)
+        return self
+
     @property
     def co_code(self):
         """Method for getting bytecode of all the registered functions."""
